@@ -105,7 +105,7 @@ PROPS["C02"] = {"units": [
     plain_unit("regress-e2e", "vnete2e", "^TestRegressC02", overlay="plain"),
     rapid_unit("napt-in-package", "vnat", "^TestC02NAPT$", 10000, 16 * 200000, overlay="full"),
     rapid_unit("one-to-one", "vnat", "^TestC02OneToOne$", 5000, 16 * 50000, overlay="full"),
-    rapid_unit("port-space", "vnat", "^TestC02PortSpace$", 12, 16 * 12, overlay="full"),
+    rapid_unit("port-space", "vnat", "^TestC02PortSpace$", 24, 16 * 30, overlay="full"),
     rapid_unit("expiry-e2e", "vnete2e", "^TestC02ExpiryE2E$", 200, 16 * 600, overlay="plain", shrinktime="5s"),
 ]}
 PROPS["C03"] = {"units": [
